@@ -107,3 +107,18 @@ Definition c05_window_ok_g (cfg : vconfig) (st : fstep) : bool :=
   | FePoll _, FrPoll PollPending _ _ _ => if c05_win_guard cfg st then c05_window_ok cfg st else true
   | _, _ => true
   end.
+
+(* ---- the part of c05_fp_ok that is an invariant of the model without further hypotheses: segment sizes,
+   the sign of the RTO counter, the segment size in use.  (The never-sent-suffix clause of c05_fp_ok needs
+   last_sent_seq_nr to lie within the table, which a peer that acknowledges unsent data can break; it
+   stays assumed-and-monitored.) *)
+Definition c05_fp_core (f : vfp) : bool :=
+  forallb (fun g => 1 <=? fg_size g) (f_segs f) && (0 <=? f_rto_retx f) && (1 <=? f_mss f).
+
+Definition c05_monitor_core_ok (cfg : vconfig) (st : fstep) : bool :=
+  c05_fp_core (fs_pre st) &&
+  match fs_result st with
+  | FrPoll PollPending _ _ _ => c05_fp_core (fs_post st)
+  | FrPoll _ _ _ _ => true
+  | _ => c05_fp_core (fs_post st)
+  end.
